@@ -10,18 +10,78 @@ use serde_json::json;
 
 pub struct C03;
 
+/// the btor2 designs shipped with the repository: bmc up to 20 (thorough: 40) steps against the reference
+/// solver; every counterexample it reports is replayed in the reference simulator
+fn corpus_case(sh: &mut Shard, rng: &mut Rng, n: usize) {
+    let files = super::c11::corpus_files();
+    let Some(path) = files.get(n) else { return };
+    let Ok(text) = std::fs::read_to_string(path) else { return };
+    let name = util::short_path(&path.to_string_lossy());
+    if text.len() > sh.tier.pick(6_000, 100_000) || !text.lines().any(|l| l.split_whitespace().nth(1) == Some("bad")) {
+        sh.count("corpus_files_without_bad_state_or_too_large", 1);
+        return;
+    }
+    let mut ctx = Context::default();
+    let Ok(Some(sys)) = util::catch(|| patronus::btor2::parse_str(&mut ctx, &text, Some("corpus"))) else {
+        sh.count("corpus_files_not_parsed", 1);
+        return;
+    };
+    sh.count("corpus_systems", 1);
+    // deterministic effort bound for the backend instead of a wall-clock one
+    set_env("REFSOLVER_RLIMIT", sh.tier.pick("4000000", "30000000"));
+    for run_i in 0..2u64 {
+        let persona = *rng.pick(&PERSONAS);
+        let individually = run_i == 1;
+        let k = sh.tier.pick(15, 40);
+        let cfgm = McCfg { persona, individually, check_constraints: false, k_max: k, solver_seed: rng.next() % 100_000, diversify: if run_i == 0 { 0 } else { 3 }, core_mode: "minimal" };
+        let run = run_bmc(&mut ctx, &sys, &cfgm, &sh.workdir.clone(), &format!("c03c_{}", sh.cur.n));
+        sh.count("corpus_bmc_runs", 1);
+        let cfg_txt = format!("{name} persona={persona} individually={individually} k={k} seed={} diversify={}", cfgm.solver_seed, cfgm.diversify);
+        match &run.verdict {
+            Verdict::Fail(w) => match validate_witness(&ctx, &sys, w) {
+                Ok(last) => {
+                    sh.count("witnesses_validated", 1);
+                    sh.count("corpus_witnesses_validated", 1);
+                    sh.hist("corpus_witness_length", &format!("{:02}", last + 1));
+                    sh.distinct(util::mix(&[util::hash_str(&name), util::hash_str(&patronus::btor2::witness_to_string(w))]));
+                    if let Err(d) = replay_in_interpreter(&ctx, &sys, w) {
+                        sh.violation("C03|corpus|interpreter-disagrees", format!("{d} ({cfg_txt})\n--- witness\n{}", util::trunc(&patronus::btor2::witness_to_string(w), 3000)), json!({"file": name}));
+                        break;
+                    }
+                }
+                Err((kind, text)) => {
+                    let wt = util::catch(|| patronus::btor2::witness_to_string(w)).unwrap_or_else(|_| "<unprintable>".into());
+                    sh.violation(format!("C03|corpus|invalid-witness|{kind}"), format!("{text} ({cfg_txt})\n--- witness\n{}", util::trunc(&wt, 3000)), json!({"file": name}));
+                    break;
+                }
+            },
+            Verdict::Success => sh.count("corpus_runs_with_verdict_success", 1),
+            other => {
+                if budget_exceeded(other) {
+                    sh.count("corpus_runs_over_the_backend_effort_bound", 1);
+                } else {
+                    sh.hist("corpus_runs_without_verdict", other.name());
+                }
+            }
+        }
+        let _ = std::fs::remove_file(&run.replay);
+        let _ = std::fs::remove_file(&run.log);
+    }
+    unset_env("REFSOLVER_RLIMIT");
+}
+
 impl Check for C03 {
     fn id(&self) -> &'static str {
         "C03"
     }
     fn work(&self, tier: Tier) -> Vec<WorkItem> {
-        vec![WorkItem { mode: "gen", count: tier.pick(1_000, 60_000) }]
+        vec![WorkItem { mode: "gen", count: tier.pick(1_000, 60_000) }, WorkItem { mode: "corpus", count: super::c11::corpus_files().len() as u64 }]
     }
     fn evaluations_counter(&self) -> &'static str {
         "witnesses_validated"
     }
     fn rule(&self) -> String {
-        "G2 systems as in C02 whose bad states are reachable within 5 steps according to R4; for each, bmc is run at the bound d (first bad depth) and d+1 against the reference solver under 8 (persona, mode, solver seed, model diversification) combinations, so that the satisfiable query is answered with different legal models and value spellings; every returned witness is replayed in the reference simulator R3: names/order of states and inputs, a value of the declared type for every state and for every input at every step, initial values equal to init expressions, every constraint true at every step, at least one bad true at the last step and the failed list exactly the bads that hold there; the same witness is replayed through patronus::sim::Interpreter and must give the same bad/constraint values. (PDR witnesses go through the same validator in C10.) distinct_nontrivial = distinct (system, witness) pairs.".into()
+        "G2 systems as in C02 whose bad states are reachable within 5 steps according to R4; for each, bmc is run at the bound d (first bad depth) and d+1 against the reference solver under 8 (persona, mode, solver seed, model diversification) combinations, so that the satisfiable query is answered with different legal models and value spellings; every returned witness is replayed in the reference simulator R3: names/order of states and inputs, a value of the declared type for every state and for every input at every step, initial values equal to init expressions, every constraint true at every step, at least one bad true at the last step and the failed list exactly the bads that hold there; the same witness is replayed through patronus::sim::Interpreter and must give the same bad/constraint values. (PDR witnesses go through the same validator in C10.) mode corpus: every shipped btor2 design with a bad state (quick: files <= 6 kB, 15 steps; thorough: <= 100 kB, 40 steps) is model checked twice (random persona; jointly / individually; plain and diversified models) under a deterministic effort bound of the backend (z3 rlimit; runs over the bound are counted, not judged) and every counterexample goes through the same two replays. distinct_nontrivial = distinct (system, witness) pairs.".into()
     }
     fn assumptions(&self) -> Vec<String> {
         vec!["models come from z3 with randomised seeds plus explicit diversification by the reference solver; every sat model is a legal answer of a conforming solver".into()]
@@ -41,8 +101,12 @@ impl Check for C03 {
     fn shard_timeout_s(&self, tier: Tier) -> u64 {
         tier.pick(600, 4 * 3600)
     }
-    fn run_case(&self, sh: &mut Shard, _case: &CaseId) {
+    fn run_case(&self, sh: &mut Shard, case: &CaseId) {
         let mut rng = Rng::new(sh.case_seed());
+        if case.mode == "corpus" {
+            corpus_case(sh, &mut rng, case.n as usize);
+            return;
+        }
         let mut ctx = Context::default();
         let cfg = mc_sys_cfg(&mut rng);
         let gs = gen_system(&mut rng, &mut ctx, &cfg, "");
@@ -109,6 +173,7 @@ impl Check for C03 {
     }
     fn finalize(&self, m: &mut Merged, tier: Tier) {
         m.floor("witnesses validated", m.c("witnesses_validated"), tier.pick(3_000, 200_000));
+        m.floor("witnesses of shipped designs validated", m.c("corpus_witnesses_validated"), tier.pick(30, 40));
         m.floor("runs that should have failed but gave another verdict (must be 0 here; C02 reports them)", (m.c("runs_without_fail_verdict") == 0) as u64, 1);
     }
 }
